@@ -198,6 +198,9 @@ func c14AllocStormOne(ctx *Ctx, as *c14AllocStorm) {
 
 func c14AllocStorms(ctx *Ctx) {
 	for k, nk := 0, ctx.N(6, 30); k < nk; k++ {
+		if c14Failed(ctx) {
+			return
+		}
 		r := ctx.R
 		as := c14AllocStorm{Storm: true, AllocStorm: true, Seed: r.U64() % 1000000, Goroutines: []int{4, 8, 16}[k%3],
 			Calls: ctx.N(1500, 4000), NTags: []int{2, 0, 5, 8, 1, 9}[k%6], Binary: r.Chance(30)}
